@@ -28,7 +28,22 @@ def main():
     f = sub.add_parser("fixed")
     f.add_argument("--id", required=True); f.add_argument("--property", required=True); f.add_argument("--commit", required=True); f.add_argument("--what", required=True)
     sub.add_parser("list")
+    b = sub.add_parser("addall")
+    b.add_argument("--triage", required=True); b.add_argument("--prefix", required=True); b.add_argument("--why", required=True)
+    b.add_argument("--only-site"); b.add_argument("--only-kind")
     args = ap.parse_args()
+    if args.cmd == "addall":
+        import hashlib, subprocess
+        for g in json.load(open(args.triage)):
+            if args.only_site and not re.search(args.only_site, g["site"]):
+                continue
+            if args.only_kind and not re.search(args.only_kind, g["kind"]):
+                continue
+            tag = re.sub(r"[^A-Za-z0-9]+", "-", g["site"].split(".")[-1] + "-" + g["kind"]).strip("-")[:60]
+            kid = "%s-%s-%s" % (args.prefix, tag, hashlib.sha1((g["site"] + g["kind"]).encode()).hexdigest()[:4])
+            what = "%s: %s - %s (e.g. %s)" % (g["site"], g["kind"], args.why, g["whats"][0][:160].replace("\n", "\\n"))
+            subprocess.run([sys.argv[0], "add", "--triage", args.triage, "--site", g["site"], "--kind", g["kind"], "--id", kid, "--what", what], check=True)
+        return
     entries = load()
     if args.cmd == "list":
         for e in entries:
